@@ -1,6 +1,6 @@
 (* C04 — the implementation model (C03/Model.v flatten on `compile p`) computes the reference semantics `eval`. *)
 From Coq Require Import List NArith ZArith Bool Lia Arith.
-From MW Require Import Common.Str C03.Model C03.Proofs C04.Model.
+From MW Require Import Common.Str C03.Model C03.Proofs C04.Model C04.ProofsSwitch.
 Import ListNotations.
 
 (* ------------------------------------------------------------------ characters and strings of the grammar *)
@@ -211,7 +211,7 @@ Section Impl.
 
   Lemma FL_step b c n e ps :
     node_as_str n = None ->
-    node_body (tpl_of u) (fun _ => false) (fun _ _ => []) dn (FL b (S c)) (FL b (S c)) n e = Ok ps ->
+    node_body (tpl_of u) (fun _ => false) (fun _ _ => MDone []) dn (FL b (S c)) (FL b (S c)) n e = Ok ps ->
     FL (S b) c n e = Ok ps.
   Proof. intros Hn H. unfold impl_flatten. rewrite flatten_step by exact Hn. unfold impl_flatten in H. rewrite H. reflexivity. Qed.
 
@@ -235,7 +235,7 @@ Section Impl.
   Lemma flat_to_step n e s :
     node_as_str n = None ->
     (exists b0, forall b c, (b0 <= b)%nat -> exists ps,
-        node_body (tpl_of u) (fun _ => false) (fun _ _ => []) dn (FL b (S c)) (FL b (S c)) n e = Ok ps
+        node_body (tpl_of u) (fun _ => false) (fun _ _ => MDone []) dn (FL b (S c)) (FL b (S c)) n e = Ok ps
         /\ pjoin ps = s /\ Forall okp ps) ->
     flat_to n e s.
   Proof.
@@ -302,7 +302,9 @@ Fixpoint eff_names (args : list (option str * list ast)) (i : N) : list str :=
 Fixpoint nodupb (l : list str) : bool :=
   match l with [] => true | x :: r => negb (existsb (str_eqb x) r) && nodupb r end.
 
-(* the fragment covered by the proof: everything of the property's grammar except #switch (tied by runs only) *)
+(* the fragment covered by the proof: the property's grammar.  #switch: every key, value and the scrutinee are
+   well-formed bodies; a case `k1|..|kn=v` with BOTH kn and v empty ("|=|") is excluded: its expected parse is the bare
+   eqmark, which evaluate.equal_split (a str) treats as a value without key. *)
 Fixpoint wf (p : ast) : bool :=
   let wfl := fun l : list ast => no_adj l && forallb wf l in
   let wfo := fun o : option (list ast) => match o with Some l => wfl l | None => true end in
@@ -319,11 +321,35 @@ Fixpoint wf (p : ast) : bool :=
       nodupb (eff_names args 1%N)
   | If c t e => wfl c && wfl t && wfo e
   | IfEq a b t e => wfl a && wfl b && wfl t && wfo e
-  | Switch _ _ _ => false
+  | Switch sc cases d =>
+      wfl sc &&
+      forallb (fun c : list (list ast) * list ast * list ast =>
+                 match c with
+                 | (keys, k, v) => forallb wfl keys && wfl k && wfl v && negb (is_nil k && is_nil v)
+                 end) cases &&
+      match d with Some (_, v) => wfl v | None => true end
   end.
 Definition wfl (l : list ast) : bool := no_adj l && forallb wf l.
 Definition wfo (o : option (list ast)) : bool := match o with Some l => wfl l | None => true end.
 Definition wfu (u : universe) : Prop := forall name b, ulookup u name = Some b -> wfl b = true.
+
+Definition sw_case := (list (list ast) * list ast * list ast)%type.
+Definition wf_case (c : sw_case) : bool :=
+  match c with (keys, k, v) => forallb wfl keys && wfl k && wfl v && negb (is_nil k && is_nil v) end.
+Definition wfd (d : option (bool * list ast)) : bool := match d with Some (_, v) => wfl v | None => true end.
+
+Lemma wf_switch sc cases d : wf (Switch sc cases d) = wfl sc && forallb wf_case cases && wfd d.
+Proof. reflexivity. Qed.
+
+(* the site's aliases of the magic word "default" (aliasmap.get_aliases("default") or ["#default"]): "#default" is one
+   of them and every alias contains '#' (as all of MediaWiki's localised names of #default do) *)
+Definition dn_ok (dn : list str) : Prop := In default_key dn /\ forall a, In a dn -> In 35%N a.
+
+Lemma hash_not_ok a : In 35%N a -> okstr a = false.
+Proof.
+  induction a as [|c a IH]; intros H; [destruct H|]. cbn [okstr forallb]. destruct H as [->|H]; [reflexivity|].
+  fold (okstr a). rewrite IH by exact H. apply andb_false_r.
+Qed.
 
 Lemma name_okb_spec s : name_okb s = true -> okstr s = true /\ strip s = s /\ too_long s = false.
 Proof.
@@ -534,6 +560,233 @@ Proof.
     rewrite split_eq_compile. reflexivity.
 Qed.
 
+(* ------------------------------------------------------------------ #switch: the expected parse and SwitchNode._init *)
+
+Definition case_args (c : sw_case) : list node :=
+  match c with
+  | (keys, lastk, v) => map compile_body keys ++ [mkseq (map compile lastk ++ NEq :: map compile v)]
+  end.
+Definition dflt_args (d : option (bool * list ast)) : list node :=
+  match d with
+  | Some (true, v) => [mkseq (NStr hash_default :: NEq :: map compile v)]
+  | Some (false, v) => [compile_body v]
+  | None => []
+  end.
+
+Lemma compile_switch sc cases d :
+  compile (Switch sc cases d) = NSwitch (strip_ws_node (mkseq (first_of sc))) (flat_map case_args cases ++ dflt_args d).
+Proof. destruct sc as [|[] ?]; reflexivity. Qed.
+
+(* the cases as one list of (key, value) in source order; fall-through keys get the value of their group *)
+Definition case_kvs (c : sw_case) : list (list ast * list ast) :=
+  match c with (keys, k, v) => map (fun k' => (k', v)) (keys ++ [k]) end.
+Definition kvs_ast (cases : list sw_case) : list (list ast * list ast) := flat_map case_kvs cases.
+Definition KVn (kvs : list (list ast * list ast)) : list (node * node) :=
+  map (fun kv => (compile_body (fst kv), compile_body (snd kv))) kvs.
+Definition dflt_kv (d : option (bool * list ast)) : list (node * node) :=
+  match d with Some (_, v) => [(NStr default_key, compile_body v)] | None => [] end.
+
+Fixpoint first_kv (ev : list ast -> option str) (s : str) (kvs : list (list ast * list ast)) : option (option (list ast)) :=
+  match kvs with
+  | [] => Some None
+  | (k, v) :: r => match ev k with
+                   | None => None
+                   | Some ks => if num_aware_eq (trim ks) s then Some (Some v) else first_kv ev s r
+                   end
+  end.
+
+Lemma first_kv_group ev s v keys R :
+  first_kv ev s (map (fun k' => (k', v)) keys ++ R) =
+  match any_key ev s keys with
+  | None => None
+  | Some true => Some (Some v)
+  | Some false => first_kv ev s R
+  end.
+Proof.
+  induction keys as [|k keys IH]; [reflexivity|]. cbn [map app first_kv any_key].
+  destruct (ev k) as [ks|]; [|reflexivity]. destruct (num_aware_eq (trim ks) s); [reflexivity|exact IH].
+Qed.
+
+Lemma first_case_flat ev s cases : first_case ev s cases = first_kv ev s (kvs_ast cases).
+Proof.
+  induction cases as [|[[keys k] v] r IH]; [reflexivity|].
+  unfold kvs_ast. cbn [flat_map case_kvs first_case]. rewrite first_kv_group. fold (kvs_ast r). rewrite <- IH. reflexivity.
+Qed.
+
+Lemma first_kv_in ev s kvs v : first_kv ev s kvs = Some (Some v) -> exists k, In (k, v) kvs.
+Proof.
+  induction kvs as [|[k1 v1] r IH]; cbn [first_kv]; [discriminate|].
+  destruct (ev k1) as [ks|]; [|discriminate]. destruct (num_aware_eq (trim ks) s).
+  - intros H. inversion H; subst. exists k1. left. reflexivity.
+  - intros H. destruct (IH H) as [k Hk]. exists k. right. exact Hk.
+Qed.
+
+Lemma kvs_ast_wf cases : forallb wf_case cases = true ->
+  forall k v, In (k, v) (kvs_ast cases) -> wfl k = true /\ wfl v = true.
+Proof.
+  induction cases as [|[[keys k0] v0] r IH]; intros H k v Hin; [destruct Hin|].
+  cbn [forallb wf_case] in H. apply andb_true_iff in H as [Hc Hr].
+  apply andb_true_iff in Hc as [Hc _]. apply andb_true_iff in Hc as [Hc Hv]. apply andb_true_iff in Hc as [Hks Hk0].
+  unfold kvs_ast in Hin. cbn [flat_map case_kvs] in Hin. apply in_app_or in Hin as [Hin|Hin]; [|apply IH; assumption].
+  apply in_map_iff in Hin as (k' & Heq & Hin'). inversion Heq; subst. split; [|exact Hv].
+  apply in_app_or in Hin' as [Hin'|[<-|[]]]; [|exact Hk0].
+  rewrite forallb_forall in Hks. apply Hks. exact Hin'.
+Qed.
+
+Lemma wfl_no_adj l : wfl l = true -> no_adj l = true.
+Proof. unfold wfl. intros H. apply andb_true_iff in H. apply H. Qed.
+
+Lemma reopt_body l : no_adj l = true -> reopt (compile_body l) = compile_body l.
+Proof.
+  intros H. unfold compile_body, mkseq. rewrite merge_compile by exact H.
+  destruct l as [|x [|y r]].
+  - reflexivity.
+  - cbn [map]. destruct x as [s|nm [d0|]|nm args|c t e|a b t e|sc cs d0]; reflexivity.
+  - cbn [map reopt]. change (compile x :: compile y :: map compile r) with (map compile (x :: y :: r)).
+    unfold mkseq. rewrite merge_compile by exact H. reflexivity.
+Qed.
+
+Lemma equal_split_cbody v : no_adj v = true -> equal_split (compile_body v) = (None, compile_body v).
+Proof. apply equal_split_body. Qed.
+
+Lemma body_as_str l s : no_adj l = true -> node_as_str (compile_body l) = Some s -> l = [Text s].
+Proof.
+  intros H. unfold compile_body, mkseq. rewrite merge_compile by exact H.
+  destruct l as [|x [|y r]]; cbn [map node_as_str]; try discriminate.
+  destruct (is_text x) eqn:Ex.
+  - destruct x; try discriminate. cbn [compile node_as_str]. intros E. inversion E. reflexivity.
+  - destruct (compile_nonstr x Ex) as [Hx _]. rewrite Hx. discriminate.
+Qed.
+
+Lemma merge_app_eq a b : merge_strs (a ++ NEq :: b) = merge_strs a ++ NEq :: merge_strs b.
+Proof.
+  induction a as [|x a IH]; [reflexivity|]. cbn [app].
+  destruct x; cbn [merge_strs]; rewrite IH; try reflexivity.
+  destruct (merge_strs a) as [|[] r]; reflexivity.
+Qed.
+
+Lemma split_eq_app a b : Forall (fun n => is_eq n = false) a -> split_eq (a ++ NEq :: b) = Some (a, b).
+Proof.
+  induction 1 as [|x a Hx Ha IH]; [reflexivity|]. cbn [app split_eq]. rewrite Hx, IH. reflexivity.
+Qed.
+
+Lemma mkseq_ge2 x y r : merge_strs (x :: y :: r) = x :: y :: r -> mkseq (x :: y :: r) = NSeq (x :: y :: r).
+Proof. intros H. unfold mkseq. rewrite H. reflexivity. Qed.
+
+Lemma case_arg_split lastk v :
+  no_adj lastk = true -> no_adj v = true -> is_nil lastk && is_nil v = false ->
+  equal_split (mkseq (map compile lastk ++ NEq :: map compile v)) = (Some (NSeq (map compile lastk)), NSeq (map compile v)).
+Proof.
+  intros Hk Hv Hne.
+  assert (Hm : merge_strs (map compile lastk ++ NEq :: map compile v) = map compile lastk ++ NEq :: map compile v)
+    by (rewrite merge_app_eq, !merge_compile by assumption; reflexivity).
+  assert (Hs : mkseq (map compile lastk ++ NEq :: map compile v) = NSeq (map compile lastk ++ NEq :: map compile v)).
+  { destruct lastk as [|x k'].
+    - destruct v as [|y v']; [discriminate|]. cbn [map app] in *. apply mkseq_ge2. exact Hm.
+    - cbn [map app] in *. destruct (map compile k' ++ NEq :: map compile v) as [|z r] eqn:E.
+      + destruct (map compile k'); discriminate.
+      + apply mkseq_ge2. exact Hm. }
+  rewrite Hs. unfold equal_split. rewrite split_eq_app by apply map_compile_noeq. reflexivity.
+Qed.
+
+Lemma sw_loop_keys keys : forall nks rest st,
+  forallb wfl keys = true ->
+  sw_loop (map compile_body keys ++ rest) nks st = sw_loop rest (nks ++ map compile_body keys) st.
+Proof.
+  induction keys as [|k keys IH]; intros nks rest st H.
+  - cbn [map app]. rewrite app_nil_r. reflexivity.
+  - cbn [forallb] in H. apply andb_true_iff in H as [Hk Hr]. apply wfl_no_adj in Hk.
+    cbn [map app sw_loop]. rewrite equal_split_cbody, reopt_body by exact Hk.
+    rewrite IH by exact Hr. rewrite <- app_assoc. reflexivity.
+Qed.
+
+Lemma fold_store_keys V ks : forall st,
+  fold_left (fun s k => store_key k V s) ks st = store_all (map (fun k => (k, V)) ks) st.
+Proof. induction ks as [|k ks IH]; intros st; [reflexivity|]. cbn [map]. unfold store_all. cbn [fold_left fst snd]. apply IH. Qed.
+
+Lemma sw_loop_case c rest st :
+  wf_case c = true -> sw_loop (case_args c ++ rest) [] st = sw_loop rest [] (store_all (KVn (case_kvs c)) st).
+Proof.
+  destruct c as [[keys k] v]. cbn [wf_case]. intros H.
+  apply andb_true_iff in H as [H Hne]. apply andb_true_iff in H as [H Hv]. apply andb_true_iff in H as [Hks Hk].
+  apply negb_true_iff in Hne. apply wfl_no_adj in Hk. apply wfl_no_adj in Hv.
+  unfold case_args. rewrite <- app_assoc, sw_loop_keys by exact Hks.
+  cbn [app sw_loop]. rewrite case_arg_split by assumption. cbn [reopt].
+  rewrite fold_store_keys. f_equal.
+  unfold KVn, case_kvs. rewrite !map_map, map_app, store_all_app. reflexivity.
+Qed.
+
+Lemma sw_loop_cases cases : forall rest st,
+  forallb wf_case cases = true ->
+  sw_loop (flat_map case_args cases ++ rest) [] st = sw_loop rest [] (store_all (KVn (kvs_ast cases)) st).
+Proof.
+  induction cases as [|c r IH]; intros rest st H; [reflexivity|].
+  cbn [forallb] in H. apply andb_true_iff in H as [Hc Hr].
+  cbn [flat_map]. rewrite <- app_assoc, sw_loop_case by exact Hc. rewrite IH by exact Hr.
+  unfold kvs_ast. cbn [flat_map]. unfold KVn. rewrite map_app, store_all_app. reflexivity.
+Qed.
+
+Lemma sw_loop_dflt d st : wfd d = true -> sw_loop (dflt_args d) [] st = store_all (dflt_kv d) st.
+Proof.
+  destruct d as [[[|] v]|]; cbn [wfd dflt_args dflt_kv]; intros H; [| |reflexivity]; apply wfl_no_adj in H.
+  - change (mkseq (NStr hash_default :: NEq :: map compile v)) with (carg (Some hash_default, v)).
+    rewrite carg_named by exact H. reflexivity.
+  - cbn [sw_loop]. rewrite equal_split_cbody, reopt_body by exact H. reflexivity.
+Qed.
+
+Lemma switch_init_compile cases d :
+  forallb wf_case cases = true -> wfd d = true ->
+  switch_init (flat_map case_args cases ++ dflt_args d) = store_all (KVn (kvs_ast cases) ++ dflt_kv d) ([], []).
+Proof.
+  intros Hc Hd. unfold switch_init. rewrite sw_loop_cases by exact Hc. rewrite sw_loop_dflt by exact Hd.
+  rewrite store_all_app. reflexivity.
+Qed.
+
+Lemma dk_nomatch val : okstr val = true -> num_aware_eq (strip default_key) val = false.
+Proof.
+  intros H. change (strip default_key) with default_key. unfold num_aware_eq.
+  change (parse_num default_key) with (@None num).
+  destruct (str_eqb default_key val) eqn:E; [|reflexivity].
+  apply str_eqb_spec in E. rewrite <- E in H. vm_compute in H. discriminate.
+Qed.
+
+Lemma unres_dflt d : unres_of (dflt_kv d) = [].
+Proof. destruct d as [[b v]|]; reflexivity. Qed.
+
+Lemma default_lookup_some dn fast p x :
+  (forall a, In a dn -> fast_get (KS a) fast = if str_eqb a default_key then Some (p, x) else None) ->
+  In default_key dn -> default_lookup dn fast = Some x.
+Proof.
+  induction dn as [|a r IH]; intros H Hin; [destruct Hin|]. cbn [default_lookup].
+  rewrite (H a (or_introl eq_refl)). destruct (str_eqb a default_key) eqn:E; [reflexivity|].
+  apply IH; [intros a' Ha'; apply H; right; exact Ha'|].
+  destruct Hin as [->|Hin]; [rewrite str_eqb_refl in E; discriminate|exact Hin].
+Qed.
+
+Lemma default_lookup_none dn fast :
+  (forall a, In a dn -> fast_get (KS a) fast = None) -> default_lookup dn fast = None.
+Proof.
+  induction dn as [|a r IH]; intros H; [reflexivity|]. cbn [default_lookup].
+  rewrite (H a (or_introl eq_refl)). apply IH. intros a' Ha'. apply H. right. exact Ha'.
+Qed.
+
+(* the SwitchNode case of node_body, with the tables named *)
+Lemma NB_switch tpl ism mp dn (fl flb : flat) V args e fast unres ps :
+  switch_init args = (fast, unres) -> fl V e = Ok ps ->
+  node_body tpl ism mp dn fl flb (NSwitch V args) e =
+  let val := strip (pjoin ps) in
+  let '(pos, ret0) := pick (match parse_num val with Some q => fast_get (KN q) fast | None => None end)
+                           (fast_get (KS val) fast) (S (length unres)) in
+  match sw_unres fl e val (parse_num val) (firstn pos unres) with
+  | Err x => Err x
+  | Ok found =>
+      branch fl e (Some (match (match found with Some x => Some x | None => ret0 end) with
+                         | Some x => x
+                         | None => match default_lookup dn fast with Some x => x | None => NStr [] end
+                         end))
+  end.
+Proof. intros H1 H2. cbn [node_body]. rewrite H1, H2. reflexivity. Qed.
+
 (* ------------------------------------------------------------------ main correspondence *)
 
 Section Main.
@@ -549,12 +802,12 @@ Section Main.
     forall name, exists b0, forall b c, (b0 <= b)%nat -> get (FL b c) e name = Ok (rlookup E name).
   Definition env_ok (E : renv) : Prop := forall name v, rlookup E name = Some v -> okstr v = true.
 
-  Lemma value_of_flat val e s ds :
-    flat_to val e s ->
+  Lemma value_of_flat val e s (ds : bool) :
+    flat_to val e s -> too_long (if ds then trim s else s) = false ->
     okstr s = true /\
     exists b0, forall b c, (b0 <= b)%nat -> value_of (FL b c) ds val e = Ok (if ds then trim s else s).
   Proof.
-    intros H. destruct (node_as_str val) as [s0|] eqn:Hn.
+    intros H Hcap. destruct (node_as_str val) as [s0|] eqn:Hn.
     - destruct (flat_to_str_inv u dn _ _ _ _ Hn H) as [-> Hok]. split; [exact Hok|].
       exists 0%nat. intros b c _. unfold value_of. rewrite Hn. rewrite strip_trim by exact Hok. reflexivity.
     - destruct H as [b0 H]. split.
@@ -562,7 +815,7 @@ Section Main.
       + exists b0. intros b c Hb. destruct (H b c Hb) as (ps & H1 & H2 & H3). unfold value_of. rewrite Hn, H1.
         rewrite join_nl_ok by exact H3. rewrite H2.
         assert (Hok : okstr s = true) by (rewrite <- H2; apply okp_join; exact H3).
-        rewrite strip_trim by exact Hok. reflexivity.
+        rewrite strip_trim by exact Hok. rewrite Hcap. reflexivity.
   Qed.
 
   Lemma is_blank_ws s : is_blank s = true -> forallb is_ws s = true.
@@ -668,11 +921,12 @@ Section Main.
       cbn [forallb argwf] in Hwf. apply andb_true_iff in Hwf as [Hw Hwr]. apply andb_true_iff in Hw as [Hk Hv].
       cbn [eff_names nodupb] in Hnd. apply andb_true_iff in Hnd as [Hnk Hndr]. apply negb_true_iff in Hnk.
       cbn [bind_args] in Hb. destruct (evals n u E v) as [s|] eqn:Ev; [|discriminate].
-      destruct (bind_args (evals n u E) r i) as [Er|] eqn:Ebr; [|discriminate]. inversion Hb; subst E'. clear Hb.
+      destruct (bind_args (evals n u E) r i) as [Er|] eqn:Ebr; [|discriminate].
+      destruct (too_long (trim s)) eqn:Hcap; [discriminate|]. inversion Hb; subst E'. clear Hb.
       destruct (IHr i Er Hwr Hndr Ebr) as (Hf & Hok & Hs).
       destruct (name_okb_spec k Hk) as (Hk1 & Hk2 & _).
       destruct (body_mk n IH E e v s HE HEok Hv Ev) as (_ & Hq & Hsok).
-      destruct (value_of_flat _ _ _ true Hq) as (_ & bv & Hval).
+      destruct (value_of_flat _ _ _ true Hq Hcap) as (_ & bv & Hval).
       assert (Hnv : no_adj v = true) by (unfold wfl in Hv; apply andb_true_iff in Hv; apply Hv).
       split; [cbn [map fst eff_names]; rewrite Hf; reflexivity|]. split.
       { intros name x. cbn [rlookup]. destruct (rlookup Er name) eqn:El.
@@ -696,10 +950,11 @@ Section Main.
       cbn [forallb argwf] in Hwf. apply andb_true_iff in Hwf as [Hv Hwr].
       cbn [eff_names nodupb] in Hnd. apply andb_true_iff in Hnd as [Hnk Hndr]. apply negb_true_iff in Hnk.
       cbn [bind_args] in Hb. destruct (evals n u E v) as [s|] eqn:Ev; [|discriminate].
-      destruct (bind_args (evals n u E) r (i + 1)%N) as [Er|] eqn:Ebr; [|discriminate]. inversion Hb; subst E'. clear Hb.
+      destruct (bind_args (evals n u E) r (i + 1)%N) as [Er|] eqn:Ebr; [|discriminate].
+      destruct (too_long s) eqn:Hcap; [discriminate|]. inversion Hb; subst E'. clear Hb.
       destruct (IHr (i + 1)%N Er Hwr Hndr Ebr) as (Hf & Hok & Hs).
       destruct (body_mk n IH E e v s HE HEok Hv Ev) as (Hm & _ & Hsok).
-      destruct (value_of_flat _ _ _ false Hm) as (_ & bv & Hval).
+      destruct (value_of_flat _ _ _ false Hm Hcap) as (_ & bv & Hval).
       assert (Hnv : no_adj v = true) by (unfold wfl in Hv; apply andb_true_iff in Hv; apply Hv).
       split; [cbn [map fst eff_names]; rewrite Hf; reflexivity|]. split.
       { intros name x. cbn [rlookup]. destruct (rlookup Er name) eqn:El.
@@ -715,16 +970,54 @@ Section Main.
         rewrite Hval by lia. reflexivity.
       + rewrite Hscan by lia. destruct (rlookup Er name); reflexivity.
   Qed.
+  (* the computed keys before the earliest literal match are evaluated in order; the first match wins *)
+  Lemma sw_unres_ok n (IH : body_IH n) E e (HE : env_rel E e) (HEok : env_ok E) val :
+    forall kvs r,
+      (forall k v, In (k, v) kvs -> wfl k = true) ->
+      first_kv (evals n u E) val kvs = Some r ->
+      exists b0, forall b c, (b0 <= b)%nat -> exists found,
+        sw_unres (FL b c) e val (parse_num val) (firstn (fst (look val (KVn kvs))) (unres_of (KVn kvs))) = Ok found /\
+        match found with Some x => Some x | None => snd (look val (KVn kvs)) end = option_map compile_body r.
+  Proof.
+    induction kvs as [|[k v] rest IHk]; intros r Hw Hf.
+    - cbn [first_kv] in Hf. inversion Hf; subst r. exists 0%nat. intros b c _. exists None. split; reflexivity.
+    - cbn [first_kv] in Hf. destruct (evals n u E k) as [ks|] eqn:Ek; [|discriminate].
+      assert (Hwk : wfl k = true) by (apply (Hw k v); left; reflexivity).
+      assert (Hwr : forall k' v', In (k', v') rest -> wfl k' = true) by (intros k' v' Hin; apply (Hw k' v'); right; exact Hin).
+      destruct (body_mk n IH E e k ks HE HEok Hwk Ek) as (Hmk & _ & Hok).
+      fold (compile_body k) in Hmk.
+      cbn [KVn map fst snd look unres_of]. fold (KVn rest).
+      destruct (node_as_str (compile_body k)) as [s0|] eqn:Hn.
+      + (* literal key: in the fast table *)
+        destruct (flat_to_str_inv u dn _ _ _ _ Hn Hmk) as [-> Hok0].
+        rewrite strip_trim by exact Hok0.
+        destruct (num_aware_eq (trim s0) val) eqn:Em.
+        * inversion Hf; subst r. exists 0%nat. intros b c _. exists None. split; reflexivity.
+        * apply IHk; assumption.
+      + (* computed key *)
+        destruct Hmk as [bk Hk].
+        destruct (num_aware_eq (trim ks) val) eqn:Em.
+        * inversion Hf; subst r. exists bk. intros b c Hb.
+          destruct (look val (KVn rest)) as [p x]. cbn [fst snd firstn].
+          rewrite sw_unres_cons. destruct (Hk b c Hb) as (ps & P1 & P2 & _).
+          rewrite P1, P2, strip_trim, Em by exact Hok. exists (Some (compile_body v)). split; reflexivity.
+        * destruct (IHk r Hwr Hf) as [br Hr]. exists (Nat.max bk br). intros b c Hb.
+          destruct (Hr b c ltac:(lia)) as (found & F1 & F2).
+          destruct (look val (KVn rest)) as [p x]. cbn [fst snd firstn] in *.
+          rewrite sw_unres_cons. destruct (Hk b c ltac:(lia)) as (ps & P1 & P2 & _).
+          rewrite P1, P2, strip_trim, Em by exact Hok. exists found. split; assumption.
+  Qed.
 End Main.
 
 Section Main2.
   Variable u : universe.
   Variable dn : list str.
   Hypothesis Hu : wfu u.
+  Hypothesis Hdn : dn_ok dn.
   Notation FL := (impl_flatten u dn).
   Notation flat_to := (flat_to u dn).
   Notation flats := (flats u dn).
-  Notation NB := (node_body (tpl_of u) (fun _ => false) (fun _ _ => []) dn).
+  Notation NB := (node_body (tpl_of u) (fun _ => false) (fun _ _ => MDone []) dn).
 
   Lemma branch_some n e st :
     flat_to n e st ->
@@ -773,6 +1066,101 @@ Section Main2.
   Lemma wfo_spec (o : option (list ast)) :
     match o with Some l => no_adj l && forallb wf l | None => true end = wfo o.
   Proof. destruct o; reflexivity. Qed.
+
+  (* #switch: nodes.pyx:75-167 against the first matching key of the reference semantics *)
+  Lemma switch_ok n (IHb : body_IH u dn n) E e sc cs d s :
+    env_rel u dn E e -> env_ok E -> wfl sc = true -> forallb wf_case cs = true -> wfd d = true ->
+    match evals n u E sc with
+    | None => None
+    | Some s0 =>
+        match first_case (evals n u E) (trim s0) cs with
+        | None => None
+        | Some (Some v) => otrim (evals n u E v)
+        | Some None => match d with Some (_, v) => otrim (evals n u E v) | None => Some [] end
+        end
+    end = Some s ->
+    flat_to (compile (Switch sc cs d)) e s.
+  Proof.
+    intros HE HEok Hwsc Hwcs Hwd Hev.
+    destruct (evals n u E sc) as [s0|] eqn:Esc; [|discriminate].
+    (* the scrutinee *)
+    destruct (IHb E e sc s0 HE HEok Hwsc Esc) as (ssc & Hfc & Hcc).
+    destruct (body_mk u dn n IHb E e sc s0 HE HEok Hwsc Esc) as (_ & _ & Hs0ok).
+    pose proof (wfl_no_adj sc Hwsc) as Hnc.
+    destruct (first_of_flats u dn sc e ssc Hfc) as (ss' & Hf' & Hc').
+    destruct (cond_flat u dn (first_of sc) e ss' (merge_first_of sc Hnc) (first_of_not_seq sc) Hf') as (s' & [bc Hcond] & Hs').
+    rewrite Hc', Hcc in Hs'.
+    set (val := trim s0) in *.
+    assert (Hvalok : okstr val = true) by (apply strip_by_ok; exact Hs0ok).
+    assert (Hcondv : forall b c0, (bc <= b)%nat -> exists ps,
+               FL b c0 (strip_ws_node (mkseq (first_of sc))) e = Ok ps /\ strip (pjoin ps) = val).
+    { intros b c0 Hb. destruct (Hcond b c0 Hb) as (ps & P1 & P2 & P3). exists ps. split; [exact P1|].
+      rewrite P2, Hs'. apply strip_trim. exact Hs0ok. }
+    rewrite first_case_flat in Hev.
+    destruct (first_kv (evals n u E) val (kvs_ast cs)) as [r|] eqn:Efk; [|discriminate].
+    pose proof (kvs_ast_wf cs Hwcs) as Hkvwf.
+    (* the tables *)
+    set (KV0 := KVn (kvs_ast cs)). set (KV := KV0 ++ dflt_kv d).
+    destruct (switch_tables KV) as (fast & Einit & HS & Hpick).
+    assert (Hun : unres_of KV = unres_of KV0) by (unfold KV; rewrite unres_of_app, unres_dflt, app_nil_r; reflexivity).
+    assert (Hinit : switch_init (flat_map case_args cs ++ dflt_args d) = (fast, unres_of KV0)).
+    { rewrite switch_init_compile by assumption. fold KV0. fold KV. rewrite Einit, Hun. reflexivity. }
+    assert (Hlook : look val KV = look val KV0).
+    { unfold KV. destruct d as [[bb dv]|]; cbn [dflt_kv]; [|rewrite app_nil_r; reflexivity].
+      apply look_app_nomatch with (s0 := default_key); [reflexivity|]. apply dk_nomatch. exact Hvalok. }
+    specialize (Hpick val). rewrite Hlook, Hun in Hpick.
+    (* the default entry *)
+    destruct Hdn as [Hdk Hhash].
+    assert (Hlit : forall a, In a dn -> find_ks a KV0 0 = None).
+    { intros a Ha. apply find_ks_none. intros k v s1 Hin Hk Heq.
+      unfold KV0, KVn in Hin. apply in_map_iff in Hin as ([k0 v0] & Hkv & Hin0). cbn [fst snd] in Hkv. inversion Hkv; subst k v.
+      destruct (Hkvwf k0 v0 Hin0) as [Hwk _].
+      pose proof (body_as_str k0 s1 (wfl_no_adj k0 Hwk) Hk) as ->.
+      unfold wfl in Hwk. apply andb_true_iff in Hwk as [_ Hwk]. cbn [forallb wf] in Hwk.
+      apply andb_true_iff in Hwk as [Hwk _]. apply andb_true_iff in Hwk as [Hwk _].
+      pose proof (strip_by_ok is_ws s1 Hwk) as Hst. fold (strip s1) in Hst. rewrite Heq in Hst.
+      rewrite (hash_not_ok a (Hhash a Ha)) in Hst. discriminate. }
+    assert (Hdef : default_lookup dn fast = match d with Some (_, dv) => Some (compile_body dv) | None => None end).
+    { destruct d as [[bb dv]|].
+      - apply default_lookup_some with (p := (0 + length (unres_of KV0))%nat); [|exact Hdk].
+        intros a Ha. rewrite HS. unfold KV. rewrite find_ks_app, (Hlit a Ha). reflexivity.
+      - apply default_lookup_none. intros a Ha. rewrite HS. unfold KV. cbn [dflt_kv]. rewrite app_nil_r. apply Hlit. exact Ha. }
+    (* the computed keys *)
+    destruct (sw_unres_ok u dn n IHb E e HE HEok val (kvs_ast cs) r
+                (fun k v Hin => proj1 (Hkvwf k v Hin)) Efk) as [bu Hunres].
+    fold KV0 in Hunres.
+    rewrite compile_switch. apply flat_to_step; [reflexivity|].
+    (* the selected value *)
+    assert (Hbranch : exists x sx, s = trim sx /\ flat_to x e sx /\
+              forall found, match found with Some y => Some y | None => snd (look val KV0) end = option_map compile_body r ->
+                match (match found with Some y => Some y | None => snd (look val KV0) end) with
+                | Some y => y
+                | None => match default_lookup dn fast with Some y => y | None => NStr [] end
+                end = x).
+    { destruct r as [v|].
+      - destruct (first_kv_in _ _ _ _ Efk) as [k Hin]. destruct (Hkvwf k v Hin) as [_ Hwv].
+        destruct (evals n u E v) as [sv|] eqn:Ev; [|discriminate]. cbn [otrim] in Hev. inversion Hev; subst s.
+        destruct (body_mk u dn n IHb E e v sv HE HEok Hwv Ev) as (Hmv & _ & _).
+        exists (compile_body v), sv. split; [reflexivity|]. split; [exact Hmv|].
+        intros found Hfd. rewrite Hfd. reflexivity.
+      - destruct d as [[bb dv]|].
+        + cbn [wfd] in Hwd. destruct (evals n u E dv) as [sv|] eqn:Ev; [|discriminate]. cbn [otrim] in Hev. inversion Hev; subst s.
+          destruct (body_mk u dn n IHb E e dv sv HE HEok Hwd Ev) as (Hmv & _ & _).
+          exists (compile_body dv), sv. split; [reflexivity|]. split; [exact Hmv|].
+          intros found Hfd. rewrite Hfd, Hdef. reflexivity.
+        + inversion Hev; subst s. exists (NStr []), []. split; [reflexivity|]. split; [apply flat_to_str; reflexivity|].
+          intros found Hfd. rewrite Hfd, Hdef. reflexivity. }
+    destruct Hbranch as (x & sx & -> & Hx & Hsel).
+    destruct (branch_some _ _ _ Hx) as [bb Hbr].
+    exists (Nat.max (Nat.max bc bu) bb). intros b c0 Hb. exists [PMaybeNL; PS (trim sx); PMark].
+    destruct (Hcondv b (S c0) ltac:(lia)) as (ps & P1 & P2).
+    destruct (Hunres b (S c0) ltac:(lia)) as (found & F1 & F2).
+    destruct (Hbr b (S c0) ltac:(lia)) as [B1 B2].
+    rewrite (NB_switch _ _ _ _ _ _ _ _ _ _ _ _ Hinit P1). cbv zeta. rewrite P2, Hpick.
+    destruct (look val KV0) as [pos ret0]. cbn [fst snd] in *.
+    rewrite F1, (Hsel found F2), B1.
+    split; [reflexivity|]. split; [apply pjoin3|apply okp3; exact B2].
+  Qed.
 
   Lemma main n : forall E e p s,
     env_rel u dn E e -> env_ok E -> wf p = true -> eval n u E p = Some s -> flat_to (compile p) e s.
@@ -918,8 +1306,9 @@ Section Main2.
           destruct (Hhead b0 (S c0) ltac:(lia)) as (ps & qs & P1 & Q1 & Hc).
           cbn [node_body]. rewrite P1, Q1, Hc. cbn [nth_error branch].
           split; [reflexivity|]. split; [reflexivity|apply okp3; reflexivity].
-    - (* Switch: outside the proved fragment *)
-      cbn [wf] in Hwf. discriminate.
+    - (* Switch *)
+      rewrite wf_switch in Hwf. apply andb_true_iff in Hwf as [Hwf Hwd]. apply andb_true_iff in Hwf as [Hwsc Hwcs].
+      apply (switch_ok n IHb E e sc cs d s HE HEok Hwsc Hwcs Hwd Hev).
   Qed.
 End Main2.
 
@@ -932,11 +1321,11 @@ Lemma env_ok_nil : env_ok [].
 Proof. intros name v H. discriminate. Qed.
 
 Lemma eval_correct u dn :
-  wfu u -> forall n page s, wfl page = true -> evals n u [] page = Some s ->
+  wfu u -> dn_ok dn -> forall n page s, wfl page = true -> evals n u [] page = Some s ->
   exists L0, forall limit, (L0 <= limit)%nat -> impl_expand u dn limit page = Ok s.
 Proof.
-  intros Hu n page s Hw Hev.
-  destruct (body_mk u dn n (flats_of_evals u dn n (main u dn Hu n)) [] ETop page s
+  intros Hu Hdn n page s Hw Hev.
+  destruct (body_mk u dn n (flats_of_evals u dn n (main u dn Hu Hdn n)) [] ETop page s
               (env_rel_top u dn) env_ok_nil Hw Hev) as ([b0 H] & _ & _).
   exists b0. intros limit Hl. unfold impl_expand, expand.
   destruct (H (S limit) 0%nat ltac:(lia)) as (ps & H1 & H2 & H3).
@@ -955,6 +1344,10 @@ Qed.
 Lemma plain_text_reference n u E s : eval (S n) u E (Text s) = Some s.
 Proof. reflexivity. Qed.
 
+Lemma plain_text_both (u : universe) (dn : list str) (limit : nat) (s : str) :
+  impl_expand u dn limit [Text s] = Ok s /\ forall n E, eval (S n) u E (Text s) = Some s.
+Proof. split; [apply plain_text_identity|intros; apply plain_text_reference]. Qed.
+
 (* non-vacuity: t1 = "{{{1}}}-{{{x}}}{{{y}}}", page = "{{t1| a |x= b }}{{#if: |y| n }}{{#ifeq:1.0|1| e }}" *)
 Definition ex_u : universe :=
   [([116;49]%N, [Param [49%N] None; Text [45%N]; Param [120%N] None; Param [121%N] None])].
@@ -969,3 +1362,43 @@ Lemma example_program :
   evals 10 ex_u [] ex_page = Some ex_out /\
   impl_expand ex_u [default_key] 100 ex_page = Ok ex_out.
 Proof. vm_compute. repeat split. Qed.
+
+(* non-vacuity with #switch: t2 = "{{#switch:{{{1}}}|a|b=AB|1=one|{{{k}}}=c|#default=D}}" (fall-through group, numeric
+   key, computed key, #default), page = "{{t2|a}}{{t2|1.0}}{{t2|zz}}{{t2|q|k=q}}{{#switch:x|y=n| d }}" (bare last value
+   as default): fall-through "AB", numeric 1.0 = 1 "one", #default "D", computed key "c", bare default "d" *)
+Definition ex2_u : universe :=
+  [([116;50]%N,
+    [Switch [Param [49%N] None]
+            [([[Text [97%N]]], [Text [98%N]], [Text [65;66]%N]);
+             ([], [Text [49%N]], [Text [111;110;101]%N]);
+             ([], [Param [107%N] None], [Text [99%N]])]
+            (Some (true, [Text [68%N]]))])].
+Definition ex2_page : list ast :=
+  [Call [116;50]%N [(None, [Text [97%N]])];
+   Call [116;50]%N [(None, [Text [49;46;48]%N])];
+   Call [116;50]%N [(None, [Text [122;122]%N])];
+   Call [116;50]%N [(None, [Text [113%N]]); (Some [107%N], [Text [113%N]])];
+   Switch [Text [120%N]] [([], [Text [121%N]], [Text [110%N]])] (Some (false, [Text [32;100;32]%N]))].
+Definition ex2_out : str := [65;66;111;110;101;68;99;100]%N.   (* "ABoneDcd" *)
+
+Lemma dn_ok_default : dn_ok [default_key].
+Proof. split; [left; reflexivity|]. intros a [<-|[]]. left. reflexivity. Qed.
+
+Lemma example_switch_program :
+  wfl ex2_page = true /\ wfl (snd (hd ([], []) ex2_u)) = true /\ dn_ok [default_key] /\
+  evals 10 ex2_u [] ex2_page = Some ex2_out /\
+  impl_expand ex2_u [default_key] 100 ex2_page = Ok ex2_out.
+Proof. split; [|split; [|split; [exact dn_ok_default|]]]; vm_compute; repeat split. Qed.
+
+(* the one #switch shape rejected by `wf`: a case "|=|" with empty last key AND empty value.  Its parse is the bare
+   eqmark (a str), which evaluate.equal_split returns as a VALUE without key, so SwitchNode._init files it as a
+   fall-through key "=" of the next case instead of the case ""="" .  "{{#switch:=|=|x=Y}}": MediaWiki "" (no key
+   equals "="), mwlib "Y" (observed on the real code as well).  The statement of eval_correct is false there. *)
+Definition ex3_page : list ast :=
+  [Switch [Text [61%N]] [([], [], []); ([], [Text [120%N]], [Text [89%N]])] None].
+
+Lemma switch_empty_case_refuted :
+  wfl ex3_page = false /\
+  evals 10 [] [] ex3_page = Some [] /\
+  forall limit, impl_expand [] [default_key] (S limit) ex3_page = Ok [89%N].
+Proof. split; [reflexivity|]. split; [reflexivity|]. intros limit. reflexivity. Qed.
